@@ -24,8 +24,11 @@ def gen(rng, tier, spec):
         start = rng.range(max(0, arrivals - 1), arrivals)      # the count is (just) reached
     elif mode < 8:
         start = rng.range(0, arrivals + 2)                     # may never open, or more arrivals than the count
-    else:
+    elif mode < 9:
         start = rng.range(-1, 1)                               # edge: already open
+    else:
+        # huge counts (seeded C10-17: a counter narrowed to 16 bits truncates them): nobody may be released
+        start = rng.pick([32768, 40000, 65536, 65537, 100000])
     cw = ((14, 0), (2, 1))
     kind = rng.below(5)
     if kind == 4:
